@@ -6,5 +6,6 @@ CONSTANTS
   CompactAt = 0
   Compact = FALSE
   Wrap = FALSE
+  SortKindOrder = 0
 POSTCONDITION TraceAccepted
 CHECK_DEADLOCK FALSE
